@@ -38,7 +38,19 @@ def _idf(tier, seed):
     return out
 
 
+def _rdp(tier, seed):
+    docs = ["the x", "the x. Defaults to 5", "Defaults to -3", "x. Defaults to 'abc'", "x. Default value is True", "x. Defaults to 2.5", "x. Defaults to ",
+            "x. defaults to 7.", "x. Defaults to ```(1, 2)```", "", "Defaults to None", "first. Defaults to 4. second sentence", "x (y). Default: abc"]
+    out = []
+    for doc, extra, prop in itertools.product(docs, ({}, {"typ": "str"}, {"default": 9}), (True, False)):
+        if extra.get("typ") == "str" and ("'" not in doc and "Defaults" in doc or "Default" in doc and "'" not in doc):
+            continue  # a declared str type requires a quoted literal (extract_default raises otherwise, by design)
+        out.append({"param": ("x", dict({"doc": doc}, **extra)), "emit_default_prop": prop})
+    return out
+
+
 CORPORA = {
+    "doctrans.defaults_utils:_remove_default_from_param": _rdp,
     "doctrans.emitter_utils:interpolate_defaults": _idf,
     "doctrans.docstring_parsers:_set_name_and_type": _snt,
 }
